@@ -105,7 +105,7 @@ func userValueParams(c *Ctx) map[*ssa.Parameter]bool {
 		changed = false
 		for _, fn := range c.P.Funcs {
 			for _, ci := range CallsOf(fn) {
-				if ci.Common().StaticCallee() == nil {
+				if ir.Callee(ci.Common()) == nil {
 					continue // signature-based resolution of function values would smear user values over unrelated closures
 				}
 				for _, callee := range c.Facts.Callees(ci) {
